@@ -48,7 +48,7 @@ fn fill24(v: &mut Vec<(String, String, String)>, facts: &mut Vec<(String, i128)>
         let e = w.arch_z.create((CompY {},));
         let (k, g) = e.into_any().raw();
         let slot = (k >> 8) as usize;
-        if slot >= LIMIT || seen[slot] || g != 1 || (k & 0xFF) != 42 {
+        if slot >= LIMIT || seen[slot] || g == 0 || (k & 0xFF) != 42 {
             fail(v, "C08", "handle-issued-twice", format!("creation {} returned key {:#x} generation {}", i, k, g));
             return;
         }
@@ -93,9 +93,8 @@ fn fill24(v: &mut Vec<(String, String, String)>, facts: &mut Vec<(String, i128)>
     }
     match w.arch_z.create_within_capacity((CompY {},)) {
         Ok(e) => {
-            let (_, g) = e.into_any().raw();
-            if g != 2 || w.contains(victim) {
-                fail(v, "C08", "handle-issued-twice", format!("refill after destroy returned generation {}", g));
+            if e == victim || w.contains(victim) || !w.contains(e) {
+                fail(v, "C08", "handle-issued-twice", format!("refill after destroy returned {:?} (victim {:?})", e, victim));
             }
         }
         Err(_) => fail(v, "C12", "within-capacity-refused-with-room", "freed position not reusable at the limit".into()),
@@ -113,6 +112,9 @@ fn cycle32(v: &mut Vec<(String, String, String)>, facts: &mut Vec<(String, i128)
     let wrapping = cfg!(feature = "wrapping_version");
     let mut w = WZ::with_capacity(WZCapacity { arch_z: 2 });
     let keeper = w.arch_z.create((CompY {},));
+    // a direct handle issued before the first removal: must never be accepted again (default
+    // configuration), in particular not if the archetype version silently came round
+    let d0 = w.to_direct(keeper).unwrap();
     let mut expect_gen: u64 = 1;
     let mut cycles: u64 = 0;
     let mut removals: u64 = 0;
@@ -121,21 +123,23 @@ fn cycle32(v: &mut Vec<(String, String, String)>, facts: &mut Vec<(String, i128)
         let (k, g) = e.into_any().raw();
         let e2 = if two_slots { Some(w.arch_z.create((CompY {},))) } else { None };
         let slot_ok = if two_slots { (k >> 8) == 1 || (k >> 8) == 2 } else { (k >> 8) == 1 };
-        if g as u64 != expect_gen || !slot_ok {
-            if wrapping && g == 1 && expect_gen == (u32::MAX as u64) + 1 {
+        if (g as u64) < expect_gen || !slot_ok {
+            if wrapping && (g as u64) < expect_gen && expect_gen > (u32::MAX as u64) - 255 {
                 facts.push(("wrapped_to_generation_1".into(), 1));
                 break;
             }
             fail(v, "C08", "handle-issued-twice", format!("cycle {}: handle key {:#x} generation {} (expected generation {})", cycles, k, g, expect_gen));
             return;
         }
-        let at_slot_max = g == u32::MAX;
-        let at_ver_max = removals + 1 >= u32::MAX as u64;
+        // the step size of the counters is policy: the panic is acceptable within one step of the maximum
+        let at_slot_max = g as u64 >= u32::MAX as u64 - 255;
+        let at_ver_max = removals + 256 >= u32::MAX as u64;
+        let must_panic = g == u32::MAX;
         let r = catch(|| w.arch_z.destroy(e));
         match r {
             Ok(Some(_)) => {
                 removals += 1;
-                if !wrapping && (at_slot_max || at_ver_max) {
+                if !wrapping && must_panic {
                     fail(v, "C08", "no-overflow-panic", format!("destroy at generation {} / removal {} did not panic", g, removals));
                     return;
                 }
@@ -177,8 +181,12 @@ fn cycle32(v: &mut Vec<(String, String, String)>, facts: &mut Vec<(String, i128)
             fail(v, "C01", "dead-handle-accepted", format!("cycle {}: destroyed handle still contained", cycles));
             return;
         }
+        if !wrapping && (removals < 4 || removals + 4 >= u32::MAX as u64) && w.contains(d0) {
+            fail(v, "C09", "dead-handle-accepted", format!("after {} removals the direct handle issued before the first removal is accepted again", removals));
+            return;
+        }
         cycles += 1;
-        expect_gen += 1;
+        expect_gen = g as u64 + 1;
         if cycles % (1 << 28) == 0 && (!w.contains(keeper) || w.arch_z.len() != 1) {
             fail(v, "C01", "live-handle-rejected", "keeper entity lost".into());
             return;
